@@ -26,13 +26,16 @@ theorem C13_gen_slice_create : (SliceReader_Create_translated && SliceReader_Ini
     (repeat' split) <;> simp only [sliceView, okOr_ok, okOr_error, reduceCtorEq] at * <;>
     simp only [SliceReader_Create, SliceReader_Initialize, bind_ite, bind_none', bind_some', u64, W64] at * <;> gen_close
 
-/-- `Initialize()` on its own (copy constructor path): end test and seek -/
+/-- `Initialize()` on its own (copy constructor path): end test and seek.  Stated where `Initialize` is reachable — both
+    constructors have established that `start + len` does not wrap (the slicing constructor by its overflow test, the copy
+    constructor because it copies the members of an existing slice) — so a spelling of the end test that is equal only without
+    wrap-around (`start > N || len > N - start`) is accepted, as it must be. -/
 theorem C13_gen_slice_initialize : SliceReader_Initialize_translated = true →
-    ∀ (wl start len : Nat), wl < W64 → start < W64 → len < W64 →
+    ∀ (wl start len : Nat), wl < W64 → start + len < W64 →
       SliceReader_Initialize start len wl =
-        if u64 (start + len) > wl then none else some (start : Int) := by
+        if start + len > wl then none else some (start : Int) := by
   gen_bridge =>
-    intro wl start len h1 h2 h3
+    intro wl start len h1 h2
     split <;> simp only [SliceReader_Initialize, u64, W64] at * <;> gen_close
 
 /-- `Slice(start, length) const` followed by the construction it returns = the model's `slice2` -/
